@@ -159,8 +159,19 @@ def run_impl(case):
     except Exception as e:  # noqa: BLE001
         res = f"other:{type(e).__name__}"
     case["_fr"], case["_npdu"] = fr, alen
-    line = (f"cemi build {case['code']} {case['info'] or '-'} {case['prio']} {case['rep']} {case['sb']} {case['ack']} {case['cerr']} "
-            f"{case['hop']} 0 {case['src']} {case['g']} {case['dst']} {case['cls']} {case['seq'] or 0} {ap} {alen}")
+    # full model: the payload goes to Lean as a service object (class + field values); encoding, calculated length and the
+    # frame are all computed by the cEMI + APCI models
+    from harness import apci_lib
+    try:
+        svc = "none" if pay is None else apci_lib.canon_obj(pay)
+    except TypeError:
+        svc = None
+    if svc is not None:
+        line = (f"cemifull build {case['code']} {case['info'] or '-'} {case['prio']} {case['rep']} {case['sb']} {case['ack']} "
+                f"{case['cerr']} {case['hop']} {case['src']} {case['g']} {case['dst']} {case['cls']} {case['seq'] or 0} {svc}")
+    else:   # a field type the APCI harness library cannot render: fall back to the implementation-supplied encoding
+        line = (f"cemi build {case['code']} {case['info'] or '-'} {case['prio']} {case['rep']} {case['sb']} {case['ack']} {case['cerr']} "
+                f"{case['hop']} 0 {case['src']} {case['g']} {case['dst']} {case['cls']} {case['seq'] or 0} {ap} {alen}")
     return {"out": res, "line": line}
 
 
